@@ -20,7 +20,17 @@
                  numpy's reference semantics is never observable in an accepted program;
      errors    : raise / assert / IndexError / dynamic type errors are outcomes ([OErr]), never skipped.
    Not modelled: rounding, the truncation numpy applies when a complex value is stored into a float array
-   (the tag of an array does not change its entries). *)
+   (the tag of an array does not change its entries).
+
+   Added for arcovar_marple / modcovar_marple (T3):
+     ordering  : < <= > >= between two numbers of which at least one is a field scalar are decided by the code's
+                 sign test on the difference: a <= b is [le0 (a - b)], a > b its negation, a >= b is [le0 (b - a)],
+                 a < b its negation (the operands are real-valued wherever the code orders them; [le0] reads the real
+                 part, as for ELe0).  == and != are [feq], as before;
+     lists     : a Python list that the code only binds to list displays, appends to and returns is kept as an array
+                 of scalars; [SAppend] appends one scalar (the translator enforces the "only" and rejects every other
+                 use, so that list and array semantics cannot be told apart).
+   Every loop is still a [for] over a range: no [while], no fuel. *)
 Require Import Spectrum.Theory.Ops Spectrum.Theory.Vec.
 From Coq Require Import String.
 From Coq Require Export ZArith List.
@@ -78,8 +88,9 @@ Inductive stmt :=
 | SRaise (e : exc)
 | SAssert (c : expr)
 | SCritCall (dst : option nat) (obj : nat) (rho k : expr)   (* [dst =] obj(rho=.., k=..) *)
-| SUnsupported.                       (* a branch the translator was told not to enter (arburg with a criteria
+| SUnsupported                        (* a branch the translator was told not to enter (arburg with a criteria
                                          object is translated; nothing uses this at present) *)
+| SAppend (x : nat) (e : expr).       (* x.append(e) on a Python list of scalars that is only appended to and returned *)
 
 Record program := mkProgram {
   p_name : string;
@@ -171,12 +182,19 @@ Definition cmpZ (op : cmpop) (a b : Z) : bool :=
   end.
 Definition eqne (op : cmpop) (e : bool) : R bool :=
   match op with CEq => ok e | CNe => ok (negb e) | _ => err TypeError end.
+(* numbers, at least one a field scalar: == / != by [feq]; the order by the sign test [le0] of the difference *)
+Definition cmpF (op : cmpop) (a b : F) : R bool :=
+  match op with
+  | CEq | CNe => eqne op (feq a b)
+  | CLe => ok (le0 (a - b)) | CGt => ok (negb (le0 (a - b)))
+  | CGe => ok (le0 (b - a)) | CLt => ok (negb (le0 (b - a)))
+  end.
 Definition compare (op : cmpop) (va vb : value) : R bool :=
   match va, vb with
   | VI a, VI b => ok (cmpZ op a b)
-  | VF a, VF b => eqne op (feq a b)
-  | VF a, VI b => eqne op (feq a (ofZ b))
-  | VI a, VF b => eqne op (feq (ofZ a) b)
+  | VF a, VF b => cmpF op a b
+  | VF a, VI b => cmpF op a (ofZ b)
+  | VI a, VF b => cmpF op (ofZ a) b
   | VStr a, VStr b => eqne op (String.eqb a b)
   | VB a, VB b => eqne op (Bool.eqb a b)
   | VNone, VNone => eqne op true
@@ -361,6 +379,10 @@ Fixpoint exec (s : stmt) (st : store) {struct s} : store * ctl :=
           (fun p => let st1 := set st obj (fst p) in
                     (match dst with None => st1 | Some d => set st1 d (snd p) end, CNormal))
   | SUnsupported => (st, CErr Unsupported)
+  | SAppend x e =>
+      try st (va <- get st x ;; rl <- asArr va ;; vv <- eval st e ;; z <- asF vv ;;
+              ok (VArr (fst rl && match vv with VI _ => true | _ => false end) (snd rl ++ [z])))
+          (fun v => (set st x v, CNormal))
   end.
 
 Inductive outcome := ORet (vs : list value) | OErr (e : exc).
